@@ -13,5 +13,8 @@ func controlsC05() []Control {
 		{Name: "waiting predicate true on short deck", Expect: "R5", Mutate: replaceIn("(*seatManager).IsPlayerBetweenDealerBB", "if sm.Rule == Rule_ShortDeck {\n\t\treturn false\n\t}\n", "", 0)},
 		{Name: "failed init reported as a generic error", Expect: "R7", Mutate: replaceIn("(*tableEngine).openGame", "if err := te.sm.InitPositions(true); err != nil {\n\t\t\treturn oldTable, ErrTableOpenGameFailed", "if err := te.sm.InitPositions(true); err != nil {\n\t\t\treturn oldTable, err", 0)},
 		{Name: "has-chips refreshed from the dealt-in flag", Expect: "R4", Mutate: replaceIn("(*tableEngine).continueGame", "playerState.Bankroll > 0); err != nil", "playerState.IsParticipated); err != nil", 0)},
+		{Name: "wrap-around waiting arc includes the big-blind seat", Expect: "R5", Mutate: replaceIn("(*seatManager).isBetweenDealerBB", "i < (bbSeatID + sm.MaxSeat)", "i <= (bbSeatID + sm.MaxSeat)", 0)},
+		{Name: "waiting arc includes the dealer seat", Expect: "R5", Mutate: replaceIn("(*seatManager).isBetweenDealerBB", "targetSeatID > dealerSeatID", "targetSeatID >= dealerSeatID", 0)},
+		{Name: "dealt-in flag set by the join operation", Expect: "R1", Mutate: replaceIn("(*tableEngine).PlayerJoin", "te.table.State.PlayerStates[playerIdx].IsIn = true\n", "te.table.State.PlayerStates[playerIdx].IsIn = true\n\tte.table.State.PlayerStates[playerIdx].IsParticipated = true\n", 0)},
 	}
 }
